@@ -281,7 +281,7 @@ def collect(prop, tier):
     for modname in all_contract_modules():
         mod = importlib.import_module(modname)
         for c in mod.CONTRACTS:
-            if prop in c.props and (tier == 'thorough' or c.tier == 'quick'):
+            if prop in c.props and c.tier != 'retired' and (tier == 'thorough' or c.tier == 'quick'):
                 cons.append((modname, c))
                 for i in range(len(c.cases)):
                     jobs.append((modname, c.name, i))
